@@ -681,6 +681,9 @@ def run():
     idxs = [0, 1, 2, 3, 5, 11, 6] if ck.quick else list(range(ncfg))     # quick: incl. the integer-pool and cluster_every=2 configurations
     tasks = [("tvf.checks.c08:scenario", dict(cfg=make_cfg(i, ck.subseed("cfg", i)), n_resume=ck.pick(2, 6), seed2=ck.subseed("res", i)), None)
              for i in idxs]
+    # blobs that are not floats (int64 labels above 2^53, string labels in an object array)
+    for j, md in enumerate(ck.pick(["blobsI", "blobsS"], ["blobsI", "blobsS", "blobsI", "blobsS"])):
+        tasks.append(("tvf.checks.c08:scenario", dict(cfg=dict(make_cfg([2, 5, 14, 6][j], ck.subseed("bt", j)), mode=md, pool=None), n_resume=2, seed2=ck.subseed("btr", j)), None))
     # output_dir / output_label left at their defaults (./states/ps_*.state under the working directory)
     for j, i in enumerate(ck.pick([1, 2], [1, 2, 0, 6, 9, 11])):
         tasks.append(("tvf.checks.c08:scenario", dict(cfg=dict(make_cfg(i, ck.subseed("dcfg", i)), default_dir=True, progress=bool(j % 2)), n_resume=2, seed2=ck.subseed("dres", i)), None))
@@ -705,6 +708,8 @@ def run():
         ck.case(dict(restore_resume=cfg), nontrivial=val["nontrivial_resume"] > 0)
         if cfg.get("xdtype"):
             ck.event("restore / resume scenarios with particle coordinates in float32 or extended precision")
+        if cfg.get("mode") in ("blobsI", "blobsS"):
+            ck.event("restore / resume scenarios with integer / string blobs")
         if cfg.get("pathlib"):
             ck.event("restore / resume scenarios with output_dir / state paths given as pathlib.Path")
         if cfg.get("default_dir"):
